@@ -226,6 +226,12 @@ theorem contLoop_step (c : Option Nat) (body : Nat) :
         · right; simp at h; simp [h]
 
 
+theorem CSt.addfrontAll_states (t : Nat) : ∀ (bs : List Nat) (s : CSt), (s.addfrontAll bs t).states = s.states := by
+  intro bs
+  induction bs with
+  | nil => intro s; rfl
+  | cons b bs ih => intro s; simp only [CSt.addfrontAll, List.foldl_cons] at ih ⊢; rw [ih]; rfl
+
 theorem enterState_start (O : List Nat) (s : CSt) (h : s.atStart = true) : enterState O s = (0, 0, s) := by
   simp [enterState, h]
 
@@ -247,7 +253,8 @@ theorem enterState_step (O : List Nat) (s : CSt) (hl : Hlt s O) (hs : s.atStart 
     have hl1 := h1.hlt hl
     have h2 := Step.addState (s.newBlock none).2 (s.next :: O) s.next (by simp [CSt.newBlock])
     have h3 := (HeapExt.addfrontAll (s.next :: O) s.states.length O
-      { (s.newBlock none).2 with states := (s.newBlock none).2.states ++ [s.next] } (fun b hb => by simp [hb])).step
+      { (s.newBlock none).2 with states := (s.newBlock none).2.states ++ [s.next] } (fun b hb => by simp [hb])
+      (fun _ => by simp [CSt.newBlock])).step
       (by simpa using hl1.1)
     exact (h1.trans hl.1 h2).trans hl.1 h3
 
